@@ -185,4 +185,28 @@ PROPS["C11"] = {
     "assumptions": ["[long string] lengths are non-negative in valid bodies (the reference encoder never writes a negative length)"],
 }
 
+BYTES_STREAM = {"name": "bytes", "quick": 300, "thorough": 20000, "timeout": 7200}
+BYTES_RULE = ("bytes: real proxy between a raw client and fakecass; per case a (version in v3/v4/v5/DSEv1/DSEv2, compression none/lz4/snappy, unsupported-consistency list, override level) configuration and 6-11 requests "
+              "(QUERY incl. generator statements, EXECUTE of prepared SELECT/non-SELECT ids, BATCH, PREPARE) with all QueryOptions flags, named/positional values, paging state, timestamps, keyspace, now-in-seconds, continuous paging, "
+              "tracing flag, custom payload; responses of every kind incl. non-retried errors, tracing ids, warnings, custom payloads; compared byte for byte: request header flags/opcode/version/body at the backend, declared length vs bytes present, "
+              "response header/body at the client; overridden requests decoded with the reference codec and compared field by field; distinct = distinct configurations")
+PROPS["C03"] = {
+    "module": "CqlVerif.Props.C03",
+    "streams": [BYTES_STREAM],
+    "shrink": False,
+    "claim": "Lean theorems header_roundtrip (every 9-byte v3+ header), forward_transparent (every raw frame: any version byte, flags, opcode, body of any length/content; only the two stream bytes change), forward_length over Model/Frame; tied to proxy.go/request.go/clientconn.go by the bytes e2e stream (raw bytes recorded on both sides of the real proxy)",
+    "note": "trusted: Lean kernel, hand-written frame model + e2e byte comparison; bufio coalescing/TCP segmentation (streams compared after reassembly); compression is an opaque body for forwarding; v5 modern framing does not exist in the pinned library",
+    "rule": BYTES_RULE, "trusted_base": [KERNEL, DRIVER, HARNESS, "Model/Frame.lean hand-written"],
+    "assumptions": ["frames the proxy answers itself are C09's subject", "errors the retry policy retries are C05's subject (only never-retried error kinds are used as responses)"],
+}
+PROPS["C12"] = {
+    "module": "CqlVerif.Props.C12",
+    "streams": [BYTES_STREAM, {"name": "codec", "quick": 3000, "thorough": 100000}],
+    "shrink": False,
+    "claim": "Lean theorems override_query / override_execute / override_batch (on every valid body in the list: exactly the two consistency bytes change, length preserved so the frame stays well-formed), select_untouched, other_consistency_untouched, no_config_identity over Model/Frame + Model/PartialCodec; tied to proxy.go by the bytes e2e stream with every class of unsupported list x override level x request kind x header flags x version x compression x prepared SELECT/non-SELECT",
+    "note": "trusted: Lean kernel, hand-written models + e2e; the custom-payload / tracing prefix of a re-encoded body is compared as a map by the stream, not modelled; isSelect for EXECUTE comes from the PREPARE-time classification (C09's SELECT detection)",
+    "rule": BYTES_RULE, "trusted_base": [KERNEL, DRIVER, HARNESS, "Model/Frame.lean, Model/PartialCodec.lean hand-written"],
+    "assumptions": ["valid bodies as in C11"],
+}
+
 NOT_APPLICABLE = {}
